@@ -107,7 +107,7 @@ PROPS = {
     },
     "C11": {
         "level": "proof",
-        "verus": ["c11_json_writer", "c11_string_indexer"],
+        "verus": ["c11_json_writer", "c11_string_indexer", "c11_check_locales"],
         "kani": [],
         "assumptions": [],
         "trusted_base": [],
@@ -121,7 +121,7 @@ PROPS = {
     },
     "C03": {
         "level": "proof",
-        "verus": ["c03_defaulted"],
+        "verus": ["c03_defaulted", "c11_check_locales"],
         "kani": [],
         "assumptions": [],
         "trusted_base": [],
